@@ -964,6 +964,9 @@ func (e *SpecEnv) evalCall(c *ast.CallExpr) SVal {
 		if op, gather, ok := foldOpOf(name); ok {
 			return e.evalFold(name, op, gather, args)
 		}
+		if h, ok := hornerOpOf(name); ok {
+			return e.evalHorner(h, args)
+		}
 		if name == "seqid" && len(args) == 1 {
 			if v := e.eval(args[0]); v.Sort == "Str" {
 				return SVal{S: app("seqOfStr", v.S), Sort: "Int", T: typInt}
